@@ -324,6 +324,33 @@ func enumPaths(fn *ssa.Function, to *ssa.BasicBlock, limit int) (paths []cfgPath
 			if !feasible {
 				return
 			}
+			// a comparison made twice with the same operands has one value on a path
+			type cmpKey struct {
+				op   token.Token
+				x, y ssa.Value
+			}
+			seen := map[cmpKey]bool{}
+			pol := map[cmpKey]bool{}
+			for f := range p.Facts {
+				if bo, isB := f.Cond.(*ssa.BinOp); isB {
+					k := cmpKey{bo.Op, canonOperand(bo.X), canonOperand(bo.Y)}
+					if seen[k] && pol[k] != f.Pol {
+						return // infeasible
+					}
+					seen[k], pol[k] = true, f.Pol
+				}
+			}
+			if len(seen) > 0 {
+				for _, pb := range fn.Blocks {
+					for _, ins := range pb.Instrs {
+						if bo, isB := ins.(*ssa.BinOp); isB {
+							if k := (cmpKey{bo.Op, canonOperand(bo.X), canonOperand(bo.Y)}); seen[k] {
+								p.Facts[condFact{bo, pol[k]}] = true
+							}
+						}
+					}
+				}
+			}
 			deriveFacts(p.Facts)
 			paths = append(paths, p)
 			return
@@ -398,4 +425,49 @@ func (p cfgPath) has(b *ssa.BasicBlock) bool {
 		}
 	}
 	return false
+}
+
+// calleeImpliedFacts: what is known inside a boolean module helper whenever it returns pol: the conditions common to
+// every path of the helper that can return that value (over the helper's own values; its parameters stand for the
+// call's arguments). nil when the callee is not a module function with one boolean result or has too many paths.
+func calleeImpliedFacts(p *Program, call *ssa.Call, pol bool) map[condFact]bool {
+	h := call.Call.StaticCallee()
+	if h == nil || !p.inModule(h) || h.Blocks == nil || h.Signature.Results().Len() != 1 || !isBoolResult(call) {
+		return nil
+	}
+	paths, ok := enumPaths(h, nil, 200)
+	if !ok {
+		return nil
+	}
+	var common map[condFact]bool
+	for _, pa := range paths {
+		ret, isRet := pa.Blocks[len(pa.Blocks)-1].Instrs[len(pa.Blocks[len(pa.Blocks)-1].Instrs)-1].(*ssa.Return)
+		if !isRet || len(ret.Results) != 1 {
+			return nil
+		}
+		fs := map[condFact]bool{}
+		for f := range pa.Facts {
+			fs[f] = true
+		}
+		if v, isC := constBool(ret.Results[0]); isC {
+			if v != pol {
+				continue
+			}
+		} else {
+			addCondFacts(fs, ret.Results[0], pol)
+			if fs[condFact{ret.Results[0], !pol}] {
+				continue // the path cannot return pol
+			}
+		}
+		if common == nil {
+			common = fs
+			continue
+		}
+		for f := range common {
+			if !fs[f] {
+				delete(common, f)
+			}
+		}
+	}
+	return common
 }
